@@ -104,6 +104,6 @@ def run(ctx):
     from ..rules import cfgjump
     from ..rules import sC21
     return [pC21.rule_abstract_handlers(ctx), pC21.rule_visitor_state(ctx), pC21.rule_lattice(ctx), pC21.rule_defaults_guards(ctx), pC21.rule_infer(ctx), cfgjump.rule_jump(ctx),
-            sC21.rule_loopvar(ctx), sC21.rule_cfg(ctx, 'main', floor=160), sC21.rule_nullsafe(ctx)]
-    # pending finding: sC21.rule_cfg(ctx, 'deltry') -- the same rule on the scenarios with a `del` inside a try body reports a genuine defect of the unmodified tree
+            sC21.rule_loopvar(ctx), sC21.rule_cfg(ctx, 'main', floor=160), sC21.rule_nullsafe(ctx), sC21.rule_cfg(ctx, 'deltry')]
+    # armed after the repair 1f1e46754: sC21.rule_cfg(ctx, 'deltry') -- the same rule on the scenarios with a `del` inside a try body reports a genuine defect of the unmodified tree
     # (FINDING_1 of session s4-G5: `x = 1; try: del x; f() except E: use(x)` reads NULL); register it as C21-CFG-DELTRY (floor 36) once visit_DelStatNode is repaired.
